@@ -361,7 +361,18 @@ func (r *run) judgeRound(before *model, st0 *chainView, adds []*roundAdd, option
 		}
 	}
 	// replacement only with the bump (rounds of submissions only)
-	if heads == 0 && prices == 0 && sleeps == 0 {
+	// ... and in which no limit can have removed an intermediate same-nonce transaction
+	roomy := len(before.all())+len(optional) <= int(r.cfg.GlobalSlots)
+	for a := range before.S {
+		n := len(before.S[a])
+		for _, l := range submitted {
+			if l[0].acct == a {
+				n += len(l)
+			}
+		}
+		roomy = roomy && n <= int(r.cfg.AccountQueue)
+	}
+	if heads == 0 && prices == 0 && sleeps == 0 && roomy {
 		for a := range before.S {
 			for n, old := range before.S[a] {
 				for _, nw := range submitted[fmt.Sprintf("%d/%d", a, n)] {
